@@ -40,6 +40,9 @@ func (h *receivedPacketHistory) ReceivedPacket(p protocol.PacketNumber) bool /* 
 	// This is a DoS defense against a peer that sends us too many gaps.
 	if len(h.ranges) > protocol.MaxNumAckRanges {
 		h.ranges = slices.Delete(h.ranges, 0, len(h.ranges)-protocol.MaxNumAckRanges)
+		// We forgot which packets below the lowest remaining range were received:
+		// from now on, all of them have to be treated as potential duplicates.
+		h.deletedBelow = max(h.deletedBelow, h.ranges[0].Start)
 	}
 	return isNew
 }
